@@ -385,7 +385,7 @@ def c05_plan(run, replay=None):
     run.load_inputs("robust.ndjson.inputs")
     run.validate_trace("RobustnessObs", "robust.ndjson", s["cases"], timeout=600)
     # 2. the wrong value in the wrong place (token level), static
-    for pool in (["C05q"] if q else ["C05", "C03stops", "C09pairs"]):
+    for pool in (["C05q", "C05cyc"] if q else ["C05", "C05cyc", "C03stops", "C09pairs"]):
         run.tlc("StaticMC", "ST_%s.cfg" % pool, "design", workers=16, cases_out="static.ndjson", timeout=2400)
     s = run.harness("static", ["-in", "static.ndjson", "-out", "static_obs.ndjson", "-seed", run.seed], timeout=3000)
     run.load_inputs("static_obs.ndjson.inputs")
@@ -417,11 +417,11 @@ ZONES = "nil,UTC,America/New_York,Asia/Kolkata,fixed+0545,Pacific/Auckland,fixed
 PLANS = {
     "C05": c05_plan,
     "C01": static_plan("C01", ["C01"], ["C01"], {"distinct_feeds": 200, "parses": 700}),
-    "C03": static_plan("C03", ["C03stops", "C03refs"], ["C03stops", "C03refs", "C09pairs"], {"distinct_feeds": 3000}),
-    "C08": static_plan("C08", ["C08"], ["C08", "C01"], {"distinct_feeds": 1000}),
+    "C03": static_plan("C03", ["C03stops", "C03refs", "C05cyc"], ["C03stops", "C03refs", "C05cyc", "C09pairs"], {"distinct_feeds": 3000}),
+    "C08": static_plan("C08", ["C08", "C08files"], ["C08", "C08files", "C01"], {"distinct_feeds": 1000}),
     "C09": static_plan("C09", ["C09"], ["C09", "C09pairs"], {"distinct_feeds": 120}),
     "C10": static_plan("C10", ["C10"], ["C10"], {"distinct_feeds": 300}),
-    "C11": static_plan("C11", ["C11", "C11b"], ["C11", "C11b"], {"distinct_feeds": 5000}),
+    "C11": static_plan("C11", ["C11q", "C11b"], ["C11", "C11b"], {"distinct_feeds": 5000}),
     "C18": c18_plan,
     "C06": c06_plan,
     "C13": c13_plan,
@@ -433,7 +433,8 @@ PLANS = {
                          {"distinct_messages": 1500}),
     "C04": realtime_plan("C04", [("RT_merge_quick.cfg", "RT_merge_thorough.cfg", "nil", 4)], {"messages_with_2plus_entities": 400}),
     "C07": realtime_plan("C07", [("RT_merge_quick.cfg", "RT_merge_thorough.cfg", "nil", 4)], {"messages_with_2plus_entities": 400}),
-    "C12": realtime_plan("C12", [("RT_alerts_quick.cfg", "RT_alerts_thorough.cfg", "nil", 1)], {"distinct_messages": 400}),
+    "C12": realtime_plan("C12", [("RT_alerts_quick.cfg", "RT_alerts_thorough.cfg", "nil", 1), ("RT_alerts2.cfg", "RT_alerts2.cfg", "nil", 2),
+                                 ("RT_merge_quick.cfg", "RT_merge_quick.cfg", "nil", 1)], {"distinct_messages": 400}),
     "C20": c20_plan,
     "C19": c19_plan,
     "C14": journal_plan("C14"),
